@@ -60,7 +60,8 @@ pub fn decode_game(s: &mut Stream, gs: &mut Stream, dyadic: bool) -> (Built, boo
             interior: s.bool() && exact,
             share_outcomes: s.bool(),
             unnamed_fraction: [0, 64, 256][s.below(3)],
-        };
+        free_chance_labels: true,
+    };
         let out = cli::to_efg_text(&tree, &opts, s);
         (out.text, out.printed, constant, out.interior_outcomes, out.unnamed_infosets)
     } else {
